@@ -16,20 +16,27 @@ package main
 //  3. the Lean model `c20-append` (Model/Append.lean, the model the theorems of Theorems/C20.lean
 //     are about) predicts the same results and states (the tie of the model to the real code).
 //
-// Step language (names: '+' stands for a space):
+// Step language (names: '+' stands for a space, %XX for a separator byte; an optional tag `@l@` /
+// `@u@` in front of a name makes it travel as an IMAP literal / with its first character as a
+// modified-UTF-7 escape - see c20SplitTag):
 //
 //	CREATE <name> | DELETE <name> | RENAME <old> <new>
-//	APPEND <mbox> <hv> <uv> <gid>     hv: hashed part (Subject, To, body; 0 = a message without
-//	                                  From/Date, refused BAD), uv: unhashed part (Date,
-//	                                  Message-Id); gid: - | bad | <mbox>:<uid> (carry the
-//	                                  X-Pm-Gluon-Id header of that stored message)
+//	SELECT <name> | EXAMINE <name> | STATUS <name> | SUBSCRIBE <name> | UNSUBSCRIBE <name>
+//	APPEND <mbox> <hv> <uv> <gid>     hv: hashed part (Subject, To, MIME shape = hv/100 - c20Shapes -,
+//	                                  body; 0 = a message without From/Date, refused BAD), uv:
+//	                                  unhashed part (Date, Message-Id); gid: - | bad | <mbox>:<uid>
+//	                                  (carry the X-Pm-Gluon-Id header of that stored message)
 //	COPY <src> <uid,..> <dst> | MOVE <src> <uid,..> <dst> | EXPUNGE <mbox> <uid,..>
 //	LIST | RESTART
+//
+// Sequences: random walks (genStep) and the directed themes of o_append_directed.go (message shapes x
+// remote decision x destination; name spellings).
 //
 // Replay file: line 1 `oracle c20append`, then `script <create>,<add>,<remove>,<move>,<store>`,
 // `limit <n>|-`, then steps.
 
 import (
+	"encoding/base64"
 	"encoding/json"
 	"flag"
 	"fmt"
@@ -66,22 +73,100 @@ type c20Runner struct {
 	aborted error
 	lastObs map[string]map[int][]byte
 	steps   []string
+	// the outcomes each step consumed from the failure script, per kind (for shrinking: a dropped
+	// step takes its outcomes with it)
+	stepCalls [][5]string
 }
 
-func c20Name(w string) string   { return strings.ReplaceAll(w, "+", " ") }
-func c20Unname(n string) string { return strings.ReplaceAll(n, " ", "+") }
+// Name words.  `+` stands for a space, `%XX` for a byte that would collide with the separators of
+// the step / state syntax (`/` inside the *state* line, `= , : | ~ %`); an optional leading tag
+// `@l@` / `@u@` says how the name travels on the wire (IMAP literal / with its first character
+// written as a modified-UTF-7 escape): the tag is not part of the name (c20Name drops it).
+func c20SplitTag(w string) (byte, string) {
+	if len(w) >= 3 && w[0] == '@' && w[2] == '@' {
+		return w[1], w[3:]
+	}
+	return 'q', w
+}
+
+func c20Name(w string) string {
+	_, w = c20SplitTag(w)
+	w = strings.ReplaceAll(w, "+", " ")
+	if !strings.Contains(w, "%") {
+		return w
+	}
+	var b strings.Builder
+	for i := 0; i < len(w); i++ {
+		if w[i] == '%' && i+2 < len(w) {
+			if v, err := strconv.ParseUint(w[i+1:i+3], 16, 8); err == nil {
+				b.WriteByte(byte(v))
+				i += 2
+				continue
+			}
+		}
+		b.WriteByte(w[i])
+	}
+	return b.String()
+}
+
+func c20Unname(n string) string {
+	var b strings.Builder
+	for i := 0; i < len(n); i++ {
+		c := n[i]
+		switch {
+		case c == ' ':
+			b.WriteByte('+')
+		case c == '/' || c == '=' || c == ',' || c == ':' || c == '|' || c == '~' || c == '%' || c == '+' || c == '@' || c < 0x21 || c > 0x7e:
+			fmt.Fprintf(&b, "%%%02X", c)
+		default:
+			b.WriteByte(c)
+		}
+	}
+	return b.String()
+}
+
+// c20WireName: the mailbox argument as sent (quoted string, or the modified-UTF-7 spelling quoted).
+func c20WireName(w string) string {
+	tag, _ := c20SplitTag(w)
+	n := c20Name(w)
+	if tag == 'u' && len(n) > 0 && n[0] < 0x80 {
+		// modified UTF-7: UTF-16BE of the first character, modified base64, between & and -
+		e := base64.StdEncoding.WithPadding(base64.NoPadding).EncodeToString([]byte{0, n[0]})
+		n = "&" + strings.ReplaceAll(e, "/", ",") + "-" + n[1:]
+	}
+	return c20Quote(n)
+}
+
+// nameCmd sends `<head> <name><tail>`; a name tagged @l@ goes as a literal.
+func (r *c20Runner) nameCmd(head, w, tail string) Reply {
+	if tag, _ := c20SplitTag(w); tag == 'l' {
+		return c20Dbg(r.cl.CmdLiteral(head, []byte(c20Name(w)), tail))
+	}
+	return c20Dbg(r.cl.Cmd(head + " " + c20WireName(w) + tail))
+}
+
+func c20Dbg(rep Reply) Reply {
+	if os.Getenv("C20_DEBUG") != "" {
+		fmt.Fprintf(os.Stderr, "    [wire] %q %s\n", rep.Untagged, rep.Tagged)
+	}
+	return rep
+}
 func c20Quote(n string) string {
 	return `"` + strings.ReplaceAll(strings.ReplaceAll(n, `\`, `\\`), `"`, `\"`) + `"`
 }
 
 // c20Message builds the message for (hv, uv): hv feeds only fields the recovered-message hash reads
-// (Subject, To address, body), uv only fields it ignores (Date, Message-Id, an X- header).
+// (Subject, To address, MIME shape, body), uv only fields it ignores (Date, Message-Id, an X- header).
+// hv = 100*shape + n: the MIME shape of the message (c20Shapes), chosen to cover every branch of
+// rfc822.GetMessageHash / hashBody — in particular the ones on which hashing FAILS although the
+// literal passes rfcvalidation and imap.NewParsedMessage.
 func c20Message(hv, uv int, gidLine string) []byte {
 	if hv == 0 {
 		// hv 0: a message rfcvalidation.ValidateMessageHeaderFields refuses (no From, no Date): BAD, nothing kept
 		return []byte(fmt.Sprintf("To: b@example.com\r\nSubject: invalid %d\r\n%s\r\nbody\r\n", uv, gidLine))
 	}
 	date := fmt.Sprintf("Mon, %02d Jan 2006 15:04:%02d +0000", 1+uv%28, uv%60)
+	mime, body := c20ShapeOf(hv)
 	s := "From: a@example.com\r\n" +
 		fmt.Sprintf("To: b%d@example.com\r\n", hv) +
 		"Date: " + date + "\r\n" +
@@ -89,9 +174,50 @@ func c20Message(hv, uv int, gidLine string) []byte {
 		fmt.Sprintf("Subject: subject %d\r\n", hv) +
 		fmt.Sprintf("X-Unhashed: %d\r\n", uv) +
 		gidLine +
+		mime +
 		"\r\n" +
-		fmt.Sprintf("body of message %d\r\n", hv)
+		body
 	return []byte(s)
+}
+
+// c20Shape: extra header lines and the body of MIME shape hv/100.
+type c20Shape struct {
+	name string
+	mime string                   // header lines after the common ones
+	body func(text string) string // text = "body of message <hv>"
+}
+
+func c20B64(t string) string { return base64.StdEncoding.EncodeToString([]byte(t)) }
+
+var c20Shapes = []c20Shape{
+	0: {"plain", "", func(t string) string { return t + "\r\n" }},
+	1: {"text-b64-valid", "Content-Type: text/plain; charset=utf-8\r\nContent-Transfer-Encoding: base64\r\n", func(t string) string { return c20B64(t) + "\r\n" }},
+	2: {"text-b64-invalid", "Content-Type: text/plain\r\nContent-Transfer-Encoding: base64\r\n", func(t string) string { return t + " (not base64!)\r\n" }},
+	3: {"html-qp-valid", "Content-Type: text/html\r\nContent-Transfer-Encoding: quoted-printable\r\n", func(t string) string { return "<p>" + t + " a=3Db soft=\r\nbreak</p>\r\n" }},
+	4: {"text-qp-control-byte", "Content-Type: text/plain\r\nContent-Transfer-Encoding: quoted-printable\r\n", func(t string) string { return t + "\x0cpage two\r\n" }},
+	5: {"text-unknown-charset-8bit", "Content-Type: text/plain; charset=x-unknown-42\r\nContent-Transfer-Encoding: 8bit\r\n", func(t string) string { return t + " \xe9\xff\x80\r\n" }},
+	6: {"text-unknown-cte", "Content-Type: text/plain\r\nContent-Transfer-Encoding: x-rot13\r\n", func(t string) string { return t + " !!==\r\n" }},
+	7: {"multipart-ok", "Content-Type: multipart/mixed; boundary=c20b\r\n", func(t string) string {
+		return "--c20b\r\nContent-Type: text/plain\r\nContent-Transfer-Encoding: base64\r\n\r\n" + c20B64(t) + "\r\n--c20b\r\nContent-Type: application/octet-stream\r\nContent-Transfer-Encoding: base64\r\n\r\n!!not base64!!\r\n--c20b--\r\n"
+	}},
+	8: {"multipart-inner-html-b64-invalid", "Content-Type: multipart/alternative; boundary=c20b\r\n", func(t string) string {
+		return "--c20b\r\nContent-Type: text/plain\r\n\r\n" + t + "\r\n--c20b\r\nContent-Type: text/html\r\nContent-Transfer-Encoding: base64\r\n\r\n<b>" + t + "</b>\r\n--c20b--\r\n"
+	}},
+	9: {"multipart-truncated", "Content-Type: multipart/mixed; boundary=c20b\r\n", func(t string) string {
+		return "--c20b\r\nContent-Type: text/plain\r\n\r\n" + t + "\r\n"
+	}},
+	10: {"empty-body", "", func(t string) string { return "" }},
+	11: {"binary-b64-invalid", "Content-Type: application/pdf\r\nContent-Transfer-Encoding: base64\r\n", func(t string) string { return t + " (not base64!)\r\n" }},
+	12: {"default-type-b64-truncated", "Content-Transfer-Encoding: base64\r\n", func(t string) string { b := c20B64(t + "!"); return b[:len(b)-3] + "\r\n" }},
+	13: {"text-B64-uppercase-invalid", "Content-Type: TEXT/PLAIN\r\nContent-Transfer-Encoding: BASE64\r\n", func(t string) string { return "~~" + t + "~~\r\n" }},
+}
+
+func c20ShapeOf(hv int) (string, string) {
+	sh := hv / 100
+	if sh < 0 || sh >= len(c20Shapes) {
+		sh = 0
+	}
+	return c20Shapes[sh].mime, c20Shapes[sh].body(fmt.Sprintf("body of message %d", hv))
 }
 
 var (
@@ -100,7 +226,7 @@ var (
 	c20ReUnhashed  = regexp.MustCompile(`(?m)^X-Unhashed: (\d+)\r\n`)
 	c20ReLit       = regexp.MustCompile(`\{(\d+)\}\r\n`)
 	c20ReAppendUID = regexp.MustCompile(`\[APPENDUID (\d+) (\d+)\]`)
-	c20ReCopyUID   = regexp.MustCompile(`\[COPYUID (\d+) ([0-9:,]+) ([0-9:,]+)\]`)
+	c20ReCopyUID   = regexp.MustCompile(`\[COPYUID (\d+) ([0-9:,]*) ([0-9:,]+)\]`) // the source set can be empty (MOVE out of recovery, partly de-duplicated)
 	c20ReListLine  = regexp.MustCompile(`^\* LIST \(([^)]*)\) (?:"[^"]*"|NIL) (.*)$`)
 )
 
@@ -232,11 +358,18 @@ func (r *c20Runner) fetchMailbox(name string) (map[int][]byte, error) {
 }
 
 func (r *c20Runner) list() ([]string, error) {
+	names, _, err := r.listAttrs()
+	return names, err
+}
+
+// listAttrs: the names LIST "" "*" shows (sorted) and which of them are \Noselect.
+func (r *c20Runner) listAttrs() ([]string, map[string]bool, error) {
 	rep := r.cl.Cmd(`LIST "" "*"`)
 	if rep.Status != "OK" {
-		return nil, fmt.Errorf("LIST: %s %v", rep.Tagged, rep.Err)
+		return nil, nil, fmt.Errorf("LIST: %s %v", rep.Tagged, rep.Err)
 	}
 	var names []string
+	nosel := map[string]bool{}
 	for _, u := range rep.Untagged {
 		m := c20ReListLine.FindStringSubmatch(u)
 		if m == nil {
@@ -247,14 +380,17 @@ func (r *c20Runner) list() ([]string, error) {
 			n = strings.ReplaceAll(strings.ReplaceAll(n[1:len(n)-1], `\"`, `"`), `\\`, `\`)
 		}
 		names = append(names, n)
+		if strings.Contains(strings.ToLower(m[1]), `\noselect`) {
+			nosel[n] = true
+		}
 	}
 	sort.Strings(names)
-	return names, nil
+	return names, nosel, nil
 }
 
 // observe: the complete state, canonical: `listed=<0|1>/<mbox>=<uid>:<hv>.<uv>,…/…`
 func (r *c20Runner) observe() (string, map[string]map[int][]byte, error) {
-	names, err := r.list()
+	names, nosel, err := r.listAttrs()
 	if err != nil {
 		return "", nil, err
 	}
@@ -271,6 +407,18 @@ func (r *c20Runner) observe() (string, map[string]map[int][]byte, error) {
 	parts := []string{"listed=" + listed}
 	all := map[string]map[int][]byte{}
 	for _, n := range names {
+		if nosel[n] {
+			// a \Noselect name holds no messages; it is part of the state as an (empty) name
+			parts = append(parts, c20Unname(n)+"=-")
+			continue
+		}
+		if n == c20Recovery && listed == "0" {
+			// not listed: does it exist at all?  (a missing recovery mailbox is a state of its own:
+			// the state line then has no part for it and the judge says recovery-mailbox-missing)
+			if rep := r.cl.Cmd("EXAMINE " + c20Quote(n)); rep.Status == "NO" {
+				continue
+			}
+		}
 		msgs, err := r.fetchMailbox(n)
 		if err != nil {
 			return "", nil, err
@@ -297,6 +445,7 @@ func (r *c20Runner) observe() (string, map[string]map[int][]byte, error) {
 	}
 	_ = r.cl.Cmd("UNSELECT")
 	r.lastObs = all
+	sort.Strings(parts[1:]) // the order of the Lean side: by the encoded `name=content` words
 	return strings.Join(parts, "/"), all, nil
 }
 
@@ -341,17 +490,35 @@ func (r *c20Runner) exec(step string) (string, error) {
 		return "", fmt.Errorf("empty step")
 	}
 	switch f[0] {
-	case "CREATE", "DELETE":
+	case "CREATE", "DELETE", "SUBSCRIBE", "UNSUBSCRIBE":
 		if len(f) != 2 {
 			return "", fmt.Errorf("bad step %q", step)
 		}
-		rep := r.cl.Cmd(f[0] + " " + c20Quote(c20Name(f[1])))
+		rep := r.nameCmd(f[0], f[1], "")
+		return c20Status(rep), rep.Err
+	case "SELECT", "EXAMINE", "STATUS":
+		if len(f) != 2 {
+			return "", fmt.Errorf("bad step %q", step)
+		}
+		tail := ""
+		if f[0] == "STATUS" {
+			tail = " (MESSAGES UIDNEXT)"
+		}
+		rep := r.nameCmd(f[0], f[1], tail)
+		if f[0] != "STATUS" && rep.Status == "OK" {
+			_ = r.cl.Cmd("UNSELECT")
+		}
 		return c20Status(rep), rep.Err
 	case "RENAME":
 		if len(f) != 3 {
 			return "", fmt.Errorf("bad step %q", step)
 		}
-		rep := r.cl.Cmd("RENAME " + c20Quote(c20Name(f[1])) + " " + c20Quote(c20Name(f[2])))
+		var rep Reply
+		if t2, _ := c20SplitTag(f[2]); t2 == 'l' {
+			rep = r.cl.CmdLiteral("RENAME "+c20WireName(f[1]), []byte(c20Name(f[2])), "")
+		} else {
+			rep = r.nameCmd("RENAME", f[1], " "+c20WireName(f[2]))
+		}
 		return c20Status(rep), rep.Err
 	case "LIST":
 		names, err := r.list()
@@ -401,7 +568,7 @@ func (r *c20Runner) exec(step string) (string, error) {
 			}
 		}
 		lit := c20Message(hv, uv, gidLine)
-		rep := r.cl.Append(c20Quote(c20Name(f[1])), "", lit)
+		rep := r.cl.Append(c20WireName(f[1]), "", lit)
 		st := c20Status(rep)
 		if st == "ok" {
 			m := c20ReAppendUID.FindStringSubmatch(rep.Tagged)
@@ -424,13 +591,17 @@ func (r *c20Runner) exec(step string) (string, error) {
 		if !r.selectMbox(c20Name(f[1])) {
 			return "nosel", nil
 		}
-		rep := r.cl.Cmd("UID " + f[0] + " " + c20UidSet(f[2]) + " " + c20Quote(c20Name(f[3])))
+		rep := r.nameCmd("UID "+f[0]+" "+c20UidSet(f[2]), f[3], "")
 		st := c20Status(rep)
 		res := st
 		if st == "ok" {
 			text := rep.Tagged + "\n" + strings.Join(rep.Untagged, "\n")
 			if m := c20ReCopyUID.FindStringSubmatch(text); m != nil {
-				res = "ok " + c20ExpandSet(m[2]) + ">" + c20ExpandSet(m[3])
+				src := ""
+				if m[2] != "" {
+					src = c20ExpandSet(m[2])
+				}
+				res = "ok " + src + ">" + c20ExpandSet(m[3])
 			} else {
 				res = "ok -"
 			}
@@ -458,13 +629,17 @@ func (r *c20Runner) exec(step string) (string, error) {
 
 // runOne executes one step and observes the state.
 func (r *c20Runner) runOne(st string) bool {
+	before := r.cur.positions()
 	res, err := r.exec(st)
+	r.stepCalls = append(r.stepCalls, r.cur.consumedSince(before))
 	if err != nil {
+		r.stepCalls = r.stepCalls[:len(r.stepCalls)-1]
 		r.aborted = fmt.Errorf("step %q: %w", st, err)
 		return false
 	}
 	state, all, err := r.observe()
 	if err != nil {
+		r.stepCalls = r.stepCalls[:len(r.stepCalls)-1]
 		r.aborted = fmt.Errorf("observation after %q: %w", st, err)
 		return false
 	}
@@ -473,7 +648,9 @@ func (r *c20Runner) runOne(st string) bool {
 	r.states = append(r.states, state)
 	f := strings.Fields(st)
 	r.stats["step."+f[0]]++
-	r.stats["res."+f[0]+"."+strings.Fields(res + " x")[0]]++
+	if f[0] != "LIST" {
+		r.stats["res."+f[0]+"."+strings.Fields(res + " x")[0]]++
+	}
 	if f[0] == "APPEND" && res == "no known" {
 		r.stats["res.APPEND.no-known"]++
 	}
@@ -519,7 +696,10 @@ func (r *c20Runner) directChecks(step, res string, all map[string]map[int][]byte
 
 // ---- generator (adaptive: the next step is drawn knowing the observed state) ---------------
 
-var c20RecVariants = []string{"Recovered+Messages", "recovered+messages", "RECOVERED+MESSAGES", "ReCoVeReD+mEsSaGeS"}
+var c20RecVariants = []string{"Recovered+Messages", "recovered+messages", "RECOVERED+MESSAGES", "ReCoVeReD+mEsSaGeS", "@l@Recovered+Messages", "@u@recovered+messages"}
+
+// ... and near-spellings that do not denote it but that a normalising code path could turn into it
+var c20RecNear = []string{"Recovered+Messages/", "recovered+messages/", "Recovered+Messages+", "Recovered+Messages//", "@l@Recovered+Messages/"}
 var c20CreateProbes = []string{"Recovered+Messages", "recovered+messages", "RECOVERED+MESSAGES", "Recovered+MessagesX", "recovered+messages/sub", "RECOVERED+MESSAGES+2"}
 var c20Pool = []string{"mA", "mB", "mC", "mD"}
 
@@ -546,6 +726,9 @@ func (r *c20Runner) boxes() (normal []c20Box, rec c20Box) {
 		} else {
 			normal = append(normal, b)
 		}
+	}
+	if rec.name == "" {
+		rec.name = c20Unname(c20Recovery)
 	}
 	return
 }
@@ -625,6 +808,8 @@ func (r *c20Runner) genStep(g *Rng) string {
 			hv := g.Range(1, 4)
 			if g.Chance(1, 30) {
 				hv = 0
+			} else if g.Chance(1, 4) {
+				hv = c20PickHV(g, g.Bool()) // another MIME shape, half of the time one whose hash fails
 			}
 			return fmt.Sprintf("APPEND %s %d %d %s", mbox, hv, g.Range(1, 3), gid)
 		case x < 66: // COPY / MOVE
@@ -651,6 +836,8 @@ func (r *c20Runner) genStep(g *Rng) string {
 				dst = Pick(g, c20RecVariants)
 			case 2:
 				dst = src.name
+			case 3:
+				dst = Pick(g, c20RecNear)
 			}
 			return fmt.Sprintf("%s %s %s %s", op, src.name, c20PickUids(g, src.uids), dst)
 		case x < 71: // EXPUNGE
@@ -670,6 +857,9 @@ func (r *c20Runner) genStep(g *Rng) string {
 			return "CREATE " + freeName()
 		case x < 82: // DELETE
 			if g.Chance(1, 2) {
+				if g.Chance(1, 3) {
+					return "DELETE " + Pick(g, c20RecNear)
+				}
 				return "DELETE " + Pick(g, c20RecVariants)
 			}
 			var cands []string
@@ -776,7 +966,7 @@ func (r *c20Runner) evaluate(limit int) (*c20Verdict, error) {
 	if limit > 0 {
 		lim = strconv.Itoa(limit)
 	}
-	prefix := r.script.String() + " " + lim + " " + c20Words(r.steps)
+	prefix := r.cur.current().String() + " " + lim + " " + c20Words(r.steps)
 	obs := r.observedWords()
 	ans, err := leanJudge([]string{"c20-append " + prefix, "judge-c20-append " + prefix + " => " + strings.Join(obs, " ")})
 	if err != nil {
@@ -791,6 +981,18 @@ func (r *c20Runner) evaluate(limit int) (*c20Verdict, error) {
 		v.detail["model-disagreement@0"] = "model-disagreement@0 the Lean model answered " + c20Truncate(ans[0], 200)
 	} else {
 		for i := range obs {
+			if strings.HasPrefix(model[i], "unsupported|") {
+				// outside the modelled fragment (hierarchical names): the model cannot follow from
+				// here on; the judge still decides every step
+				r.stats["model-comparison-cut"]++
+				break
+			}
+			if strings.HasPrefix(model[i], "*|") {
+				// an answer the model leaves open (SELECT / STATUS / SUBSCRIBE ...): the state must agree
+				if j := strings.Index(obs[i], "|"); j >= 0 && obs[i][j:] == model[i][1:] {
+					continue
+				}
+			}
 			if obs[i] != model[i] {
 				cls := fmt.Sprintf("model-disagreement@%d", i+1)
 				v.classes = append(v.classes, cls)
@@ -885,16 +1087,22 @@ func c20ReplayText(sc c20FailScript, limit int, steps []string) string {
 	return "oracle c20append\nscript " + sc.String() + "\nlimit " + lim + "\n" + strings.Join(steps, "\n") + "\n"
 }
 
-// c20RunSequence: fixed steps (replay / shrinking) or, with g != nil, nsteps generated steps.
-func c20RunSequence(sc c20FailScript, limit int, steps []string, g *Rng, nsteps int) (*c20Runner, *c20Verdict, error) {
+// c20RunSequence: fixed steps (replay / shrinking) or, with g != nil, generated ones: theme ""
+// = nsteps independent random steps, "life" / "names" = the directed themes of o_append_directed.go.
+func c20RunSequence(sc c20FailScript, limit int, steps []string, g *Rng, nsteps int, theme string) (*c20Runner, *c20Verdict, error) {
 	r, err := c20NewRunner(sc, limit)
 	if err != nil {
 		return nil, nil, err
 	}
 	defer r.close()
-	if g == nil {
+	switch {
+	case g == nil:
 		r.runSteps(steps)
-	} else {
+	case theme == "life":
+		r.c20Life(g, nsteps)
+	case theme == "names":
+		r.c20Names(g, nsteps)
+	default:
 		for _, st := range []string{"CREATE mA", "CREATE mB"} {
 			if !r.runOne(st) {
 				break
@@ -914,22 +1122,35 @@ func c20RunSequence(sc c20FailScript, limit int, steps []string, g *Rng, nsteps 
 	return r, v, err
 }
 
-// shrink: drop steps while a violation of the same class remains.
-func c20Shrink(sc c20FailScript, limit int, steps []string, class string, budget int) []string {
-	cur := steps
+// c20ScriptOf: the failure script made of the outcomes the given steps consumed
+func c20ScriptOf(calls [][5]string) c20FailScript {
+	var k [5]string
+	for _, c := range calls {
+		for i := range k {
+			k[i] += c[i]
+		}
+	}
+	return c20FailScript{k[0], k[1], k[2], k[3], k[4]}
+}
+
+// shrink: drop steps - together with the remote outcomes they consumed - while a violation of the
+// same class remains.
+func c20Shrink(limit int, steps []string, calls [][5]string, class string, budget int) ([]string, c20FailScript) {
+	cur, curCalls := steps, calls
 	for chunk := len(cur) / 2; chunk >= 1 && budget > 0; chunk /= 2 {
 		for i := 0; i+chunk <= len(cur) && budget > 0; {
 			cand := append(append([]string{}, cur[:i]...), cur[i+chunk:]...)
+			candCalls := append(append([][5]string{}, curCalls[:i]...), curCalls[i+chunk:]...)
 			budget--
-			_, v, err := c20RunSequence(sc, limit, cand, nil, 0)
-			if err == nil && v != nil && v.has(class) && !v.has("sequence-aborted") {
-				cur = cand
+			r2, v, err := c20RunSequence(c20ScriptOf(candCalls), limit, cand, nil, 0, "")
+			if err == nil && v != nil && v.has(class) && !v.has("sequence-aborted") && len(r2.steps) == len(cand) {
+				cur, curCalls = cand, r2.stepCalls
 			} else {
 				i += chunk
 			}
 		}
 	}
-	return cur
+	return cur, c20ScriptOf(curCalls)
 }
 
 func c20RunOracle(args []string) int {
@@ -940,13 +1161,15 @@ func c20RunOracle(args []string) int {
 	replay := fs.String("replay", "", "")
 	n := fs.Int("n", 20, "sequences")
 	nsteps := fs.Int("steps", 25, "steps per sequence")
+	nLife := fs.Int("life", 0, "directed sequences: message shapes x remote decision x destination")
+	nNames := fs.Int("names", 0, "directed sequences: name spellings of the recovery mailbox")
 	verbose := fs.Bool("v", false, "print results and states")
 	noShrink := fs.Bool("noshrink", false, "")
 	_ = fs.Parse(args)
 	res := &OracleResult{Stats: map[string]int{}, Samples: []any{}, Violations: []OracleViol{}}
 	reported := map[string]int{}
 	_ = os.MkdirAll(*replayDir, 0o755)
-	report := func(sc c20FailScript, limit int, steps []string, v *c20Verdict, origin string, shrink bool) {
+	report := func(sc c20FailScript, limit int, steps []string, calls [][5]string, v *c20Verdict, origin string, shrink bool) {
 		seen := map[string]bool{}
 		for _, c := range v.classes {
 			class := c20ClassOf(c)
@@ -959,13 +1182,11 @@ func c20RunOracle(args []string) int {
 				continue
 			}
 			reported[class]++
-			st, vv := steps, v
-			if shrink && !*noShrink && class != "sequence-aborted" {
-				st = c20Shrink(sc, limit, steps, class, 64)
-				if _, v2, err := c20RunSequence(sc, limit, st, nil, 0); err == nil && v2 != nil && v2.has(class) {
-					vv = v2
-				} else {
-					st = steps
+			st, vv, ssc := steps, v, sc
+			if shrink && !*noShrink && class != "sequence-aborted" && len(calls) == len(steps) {
+				st2, sc2 := c20Shrink(limit, steps, calls, class, 64)
+				if _, v2, err := c20RunSequence(sc2, limit, st2, nil, 0, ""); err == nil && v2 != nil && v2.has(class) {
+					st, vv, ssc = st2, v2, sc2
 				}
 			}
 			desc := ""
@@ -975,7 +1196,7 @@ func c20RunOracle(args []string) int {
 					break
 				}
 			}
-			text := c20ReplayText(sc, limit, st)
+			text := c20ReplayText(ssc, limit, st)
 			text += fmt.Sprintf("# property C20, class %s: %s\n# %s\n# replay: ./check C20 --replay <this file>\n", class, desc, origin)
 			path := filepath.Join(*replayDir, fmt.Sprintf("C20-%s-%d-%d.txt", class, *seed, reported[class]))
 			if !shrink { // a replayed file or a corpus file: never overwrite a generated reproducer
@@ -1006,7 +1227,7 @@ func c20RunOracle(args []string) int {
 			fmt.Fprintln(os.Stderr, err)
 			return
 		}
-		r, v, err := c20RunSequence(sc, limit, steps, nil, 0)
+		r, v, err := c20RunSequence(sc, limit, steps, nil, 0, "")
 		if r == nil {
 			fmt.Fprintln(os.Stderr, "setup failed:", err)
 			res.Stats["setup-failed"]++
@@ -1024,7 +1245,7 @@ func c20RunOracle(args []string) int {
 			fmt.Println("judge:", v.judge, " classes:", v.classes)
 		}
 		account(r, v)
-		report(sc, limit, steps, v, origin, false)
+		report(sc, limit, steps, nil, v, origin, false)
 	}
 	if *replay != "" {
 		runFile(*replay, "replayed")
@@ -1042,11 +1263,39 @@ func c20RunOracle(args []string) int {
 				}
 			}
 		}
+		for _, d := range c20ShapeTie() {
+			res.Stats["class.shape-table-mismatch"]++
+			path := filepath.Join(*replayDir, fmt.Sprintf("C20-shape-table-mismatch-%d-%08x.txt", *seed, c20Fnv32(d)))
+			_ = os.WriteFile(path, []byte("oracle c20append\nscript -,-,-,-,-\nlimit -\nLIST\n# property C20, class shape-table-mismatch: "+d+"\n"), 0o644)
+			res.Violations = append(res.Violations, OracleViol{Desc: "C20 " + d, Replay: path})
+		}
+		res.Evaluations += len(c20Shapes)
 		g := NewRng(*seed)
-		for k := 0; k < *n; k++ {
+		total := *n + *nLife + *nNames
+		for k := 0; k < total; k++ {
 			sg := g.Fork()
-			sc, limit := c20GenScript(sg)
-			r, v, err := c20RunSequence(sc, limit, nil, sg, *nsteps)
+			// the themes are interleaved evenly (a run that is cut off has seen all of them)
+			theme, best := "", -1.0
+			for _, t := range []struct {
+				name string
+				n    int
+			}{{"", *n}, {"life", *nLife}, {"names", *nNames}} {
+				key := "sequences." + t.name
+				if t.name == "" {
+					key = "sequences.random"
+				}
+				if left := t.n - res.Stats[key]; left > 0 {
+					if f := float64(left) / float64(t.n); f > best {
+						theme, best = t.name, f
+					}
+				}
+			}
+			var sc c20FailScript
+			limit := 0
+			if theme == "" {
+				sc, limit = c20GenScript(sg)
+			}
+			r, v, err := c20RunSequence(sc, limit, nil, sg, *nsteps, theme)
 			if r == nil {
 				fmt.Fprintln(os.Stderr, "setup failed:", err)
 				res.Stats["setup-failed"]++
@@ -1057,6 +1306,11 @@ func c20RunOracle(args []string) int {
 				res.Stats["driver-failed"]++
 			}
 			res.Stats["sequences"]++
+			if theme == "" {
+				res.Stats["sequences.random"]++
+			} else {
+				res.Stats["sequences."+theme]++
+			}
 			if sc.Store != "" {
 				res.Stats["sequences.store-faults"]++
 			}
@@ -1064,10 +1318,17 @@ func c20RunOracle(args []string) int {
 				res.Stats["sequences.limit"]++
 			}
 			account(r, v)
-			if len(res.Samples) < 2 {
-				res.Samples = append(res.Samples, map[string]any{"script": sc.String(), "steps": r.steps, "results": r.results})
+			if len(res.Samples) < 3 && (theme != "" || len(res.Samples) < 1) {
+				res.Samples = append(res.Samples, map[string]any{"theme": theme, "script": r.cur.current().String(), "steps": r.steps, "results": r.results})
 			}
-			report(sc, limit, r.steps, v, fmt.Sprintf("generated (seed %d, sequence %d), minimised from %d steps", *seed, k, len(r.steps)), true)
+			if *verbose {
+				fmt.Printf("--- sequence %d theme %q script %s\n", k, theme, r.cur.current().String())
+				for i := range r.results {
+					fmt.Printf("%-44s => %-14s %s\n", r.steps[i], r.results[i], r.states[i])
+				}
+				fmt.Println("judge:", v.judge, " classes:", v.classes)
+			}
+			report(r.cur.current(), limit, r.steps, r.stepCalls, v, fmt.Sprintf("generated (seed %d, sequence %d, theme %q), minimised from %d steps", *seed, k, theme, len(r.steps)), true)
 		}
 	}
 	if *out != "" {
